@@ -34,6 +34,8 @@ structure SetupOK : Prop where
   src : ∀ l ∈ cfg.loaders, ∀ kv ∈ l, SrcOK T L kv.2
   raw : ∀ l ∈ cfg.loaders, ∀ kv ∈ l, L kv.2
   tt : ∀ kv ∈ templateTagMapping, L kv.2
+  /-- the package default is "on" (the default; `SetAutoescape(false)` is the global opt-out) -/
+  autoescape : cfg.autoescape = true
 
 end
 
